@@ -9,3 +9,9 @@ SCHEDX_ASSUME = [
 ENUMX_ASSUME = [
     "data values outside the enumerated alphabets are not covered (stated per property in DESIGN.md)",
 ]
+
+STATEX_ASSUME = [
+    "authenticated transport: a Byzantine member can only send messages under its own identity (established by C05)",
+    "the delivery menu is a coverage strategy (quorum-directed enabling sets + bounded noise); every offered event is executed on the real code",
+    "rounds above R, values outside the alphabet and non-canonical quorum subsets for n>=5 are outside the bound",
+]
